@@ -52,7 +52,7 @@ Definition sync_start_with (eng : engine) (m : machine) : M :=
     match s_status s with
     | Stopped => (s, Some EInvalidConfig)
     | Uninit =>
-        (lift (with_status Running None) ;;
+        (lift (fun s' => logo OStarted (with_status Running None s')) ;;
          enter eng true m [0] None ;;
          settle (m_max_iter m) eng true m ;;
          drain (m_max_iter m) eng m ;;
@@ -110,7 +110,7 @@ Definition async_start (m : machine) : M :=
     match s_status s with
     | Stopped => (s, Some EInvalidConfig)
     | Uninit =>
-        match (lift (with_status Running None) ;;
+        match (lift (fun s' => logo OStarted (with_status Running None s')) ;;
                enter Async false m [0] (Some init_event) ;;
                settle (m_max_iter m) Async false m) s with
         | (s', None) => (s', None)
@@ -205,4 +205,14 @@ Fixpoint advance_idle (fuel : nat) (eng : engine) (m : machine) (t : nat) (s : s
               advance_idle f eng m t (catch (drain (m_max_iter m) eng m) s2)
           end
       end
+  end.
+
+(* ---------------- stop() ---------------- *)
+
+(* both engines: a no-op when uninitialized or already stopped; otherwise the status becomes stopped, every armed
+   timer / running service is cancelled, the on_interpreter_stop hook runs.  (Queued events stay where they are.) *)
+Definition stop_interp (s : st) : st :=
+  match s_status s with
+  | Uninit | Stopped => s
+  | _ => logo OStopped (with_pending [] (s_seq s) (with_status Stopped (s_output s) s))
   end.
